@@ -94,8 +94,9 @@ def gen_ast(rng):
     ring = rng.choice([0, 0, 0, 3, 4])  # the side output goes to a ring of `ring` slots: an arith.remui among the index ops
     same_array = rng.random() < 0.08  # the result of iteration i is stored to tile i+1 of the array the first stage loads from
     alias_inner = alias is not None and rng.random() < 0.5  # ... the view is taken inside the loop body (among the index ops)
+    carried_off = rng.random() < 0.08  # the tile offset is carried through the loop as an iter_arg and advanced among the index ops
     init_acc = rng.random() < 0.08 and accumulator is None  # one buffer is written by two stages: initialised, then accumulated into
-    return {"nst": nst, "tmps": ntmp, "skip": skip is not None, "tail": tail, "ring": ring, "post": post, "alias": alias, "lb_shared": lb_shared, "alloc_in_loop": alloc_in_loop and alias is None and post is None and not scratch_views, "scratch_views": scratch_views and alias is None and post is None, "accumulator": accumulator, "same_array": same_array, "alias_inner": alias_inner, "init_acc": init_acc, "const_bounds": rng.random() < 0.75, "stages": stages}
+    return {"nst": nst, "tmps": ntmp, "skip": skip is not None, "tail": tail, "ring": ring, "post": post, "alias": alias, "lb_shared": lb_shared, "alloc_in_loop": alloc_in_loop and alias is None and post is None and not scratch_views, "scratch_views": scratch_views and alias is None and post is None, "accumulator": accumulator, "same_array": same_array, "alias_inner": alias_inner, "init_acc": init_acc, "carried_off": carried_off, "const_bounds": rng.random() < 0.75, "stages": stages}
 
 
 TVS = 'memref<' + str(E) + 'xi32, strided<[1], offset: {off}>, "L1">'
@@ -158,8 +159,15 @@ def emit(ast, env=None) -> str:
     e(f"    %g = memref.alloc() {{vsite = 9 : i64}} : {T1}")
     e(f'    "memref.copy"(%G, %g) {{vtag = 99 : i64}} : ({T1}, {T1}) -> ()')
     e('    "snax.cluster_sync_op"() : () -> ()')
-    e(f"    scf.for %i = {lb} to {ub} step {st} {{")
-    if ast.get("lb_shared") and ast["const_bounds"] and env["lb"] == 0:
+    if ast.get("carried_off"):
+        e("    %off_init = arith.constant 0 : index")
+        e(f"    %off_end = scf.for %i = {lb} to {ub} step {st} iter_args(%off = %off_init) -> (index) {{")
+        e("      %off_next = arith.addi %off, %cE : index")
+    else:
+        e(f"    scf.for %i = {lb} to {ub} step {st} {{")
+    if ast.get("carried_off"):
+        pass
+    elif ast.get("lb_shared") and ast["const_bounds"] and env["lb"] == 0:
         e("      %off0 = arith.muli %i, %cE : index")
         e("      %off = arith.addi %off0, %lb : index")
     else:
@@ -204,6 +212,8 @@ def emit(ast, env=None) -> str:
         e('      "snax.cluster_sync_op"() : () -> ()')
     if ast.get("tail"):
         e(f'      "test.op"({ast["tail"]["arg"]}) {{vtag = {ast["tail"]["tag"]} : i64}} : (index) -> ()')
+    if ast.get("carried_off"):
+        e("      scf.yield %off_next : index")
     e("    }")
     if ast.get("init_acc") and not ast.get("post"):
         e(f'    "memref.copy"(%acc2, %P) {{vtag = 93 : i64}} : ({T1}, {T1}) -> ()')  # the running result is read behind the loop
@@ -250,7 +260,7 @@ def shrink_ast(ast):
         yield dict(ast, scratch_views=False)
     if ast.get("accumulator") is not None:
         yield dict(ast, accumulator=None)
-    for flag in ("same_array", "alias_inner", "init_acc"):
+    for flag in ("same_array", "alias_inner", "init_acc", "carried_off"):
         if ast.get(flag):
             yield dict(ast, **{flag: False})
     for s_, ops_ in enumerate(ast["stages"]):
